@@ -31,7 +31,8 @@ Definition snapshot_ok (s : state) : Prop :=
   | _ => True
   end.
 
-Definition in_handler_or_handled (st : wstatus) : Prop := st = WHandling \/ st = WDone OHandled.
+Definition in_handler_or_handled (st : wstatus) : Prop :=
+  st = WHandling \/ st = WBody \/ st = WDone OHandled \/ st = WDone OAborted.
 
 Record Inv (s : state) : Prop := mkInv {
   inv_limit : may_accept (pc s) = true -> below_limit cfg (workers s) = true;
@@ -43,7 +44,8 @@ Record Inv (s : state) : Prop := mkInv {
   inv_snap : snapshot_ok s;
   inv_acc : forall c, In c (accepted s) <-> In c (ids (workers s)) \/ In c (map fst (finished s));
   inv_ent : forall c, In c (entered s) ->
-      (exists w, In w (workers s) /\ w_id w = c /\ in_handler_or_handled (w_st w)) \/ In (c, OHandled) (finished s);
+      (exists w, In w (workers s) /\ w_id w = c /\ in_handler_or_handled (w_st w))
+      \/ In (c, OHandled) (finished s) \/ In (c, OAborted) (finished s);
   inv_final : pc s = PFinal \/ pc s = PDone -> stop s = true
 }.
 
@@ -124,8 +126,8 @@ Qed.
 
 Lemma Inv_upd_st : forall s s' c w st extra,
   Inv s -> find_w c (workers s) = Some w -> is_done w = false ->
-  (w_st w = WHandling -> st = WDone OHandled) ->
-  (extra = [] \/ (extra = [c] /\ st = WHandling)) ->
+  (in_handler_or_handled (w_st w) -> in_handler_or_handled st) ->
+  (extra = [] \/ (extra = [c] /\ in_handler_or_handled st)) ->
   pc s' = pc s -> stop s' = stop s -> next_id s' = next_id s -> finished s' = finished s ->
   accepted s' = accepted s -> entered s' = entered s ++ extra -> backlog s' = backlog s ->
   workers s' = upd_w c (set_st st) (workers s) ->
@@ -161,13 +163,11 @@ Proof.
       destruct (N.eq_dec c' c) as [E|E].
       * subst c'. assert (w' = w) by (eapply find_w_unique; eauto). subst w'.
         exists (set_st st w). split; [rewrite Hw; apply In_upd_w_same; auto|]. split; [simpl; auto|].
-        simpl. destruct Hhh as [Hhh|Hhh].
-        -- right. auto.
-        -- unfold is_done in Hnd. rewrite Hhh in Hnd. discriminate.
+        simpl. apply Hh. exact Hhh.
       * exists w'. split; [|auto]. apply Hother; [exact Hin|]. intro; subst w'. congruence.
     + destruct Hex as [Hex|[Hex Hst]]; subst extra; [destruct Hc'|]. destruct Hc' as [Hc'|[]]. subst c'.
       left. exists (set_st st w). split; [rewrite Hw; apply In_upd_w_same; auto|]. split; [simpl; auto|].
-      simpl. left. exact Hst.
+      simpl. exact Hst.
   - rewrite Hpc, Hstop. auto.
 Qed.
 
@@ -265,10 +265,12 @@ Proof.
     + eapply Permutation_in; [apply Permutation_sym; exact Hp|exact H].
   - intros c Hc. destruct (inv_ent0 c Hc) as [[w [Hin [Hid Hh]]]|H].
     + destruct (memN (w_id w) rw) eqn:Em.
-      * right. apply in_or_app. right. apply In_done_pairs. exists w. split; [apply filter_In; auto|]. split; [auto|].
-        pose proof (Hdone w Hin Em) as Hd. unfold is_done in Hd. destruct Hh as [Hh|Hh]; rewrite Hh in *; [discriminate|reflexivity].
+      * right. pose proof (Hdone w Hin Em) as Hd. unfold is_done in Hd.
+        destruct Hh as [Hh|[Hh|[Hh|Hh]]]; rewrite Hh in Hd; try discriminate.
+        -- left. apply in_or_app. right. apply In_done_pairs. exists w. split; [apply filter_In; auto|]. auto.
+        -- right. apply in_or_app. right. apply In_done_pairs. exists w. split; [apply filter_In; auto|]. auto.
       * left. exists w. split; [apply filter_In; split; [auto|rewrite Em; reflexivity]|auto].
-    + right. apply in_or_app. left. exact H.
+    + right. destruct H as [H|H]; [left|right]; apply in_or_app; left; exact H.
   - intros [H|H]; discriminate.
 Qed.
 
@@ -332,10 +334,10 @@ Proof.
     + eapply Permutation_in; [apply Permutation_sym; exact Hp|exact H].
   - intros c Hc. destruct (inv_ent0 c Hc) as [[w' [Hin [Hid Hh]]]|H].
     + rewrite Hws in Hin. destruct Hin as [Hin|Hin].
-      * subst w'. right. apply in_or_app. right. left. destruct Hh as [Hh|Hh]; rewrite Hh in Hst; [discriminate|].
-        inversion Hst. subst. reflexivity.
+      * subst w'. right. destruct Hh as [Hh|[Hh|[Hh|Hh]]]; rewrite Hh in Hst; try discriminate;
+          inversion Hst; subst; [left|right]; apply in_or_app; right; left; reflexivity.
       * left. exists w'. auto.
-    + right. apply in_or_app. left. exact H.
+    + right. destruct H as [H|H]; [left|right]; apply in_or_app; left; exact H.
   - intros _. apply inv_final0. left. exact Hpc.
 Qed.
 
@@ -361,9 +363,18 @@ Lemma not_done_reading : forall w, w_st w = WReading -> is_done w = false.
 Proof. intros w H. unfold is_done. rewrite H. reflexivity. Qed.
 Lemma not_done_handling : forall w, w_st w = WHandling -> is_done w = false.
 Proof. intros w H. unfold is_done. rewrite H. reflexivity. Qed.
+Lemma not_done_body : forall w, w_st w = WBody -> is_done w = false.
+Proof. intros w H. unfold is_done. rewrite H. reflexivity. Qed.
 
-Lemma reading_not_handling : forall w st, w_st w = WReading -> w_st w = WHandling -> st = WDone OHandled.
-Proof. intros w st H1 H2. rewrite H1 in H2. discriminate. Qed.
+Lemma reading_not_in_handler : forall w st, w_st w = WReading -> in_handler_or_handled (w_st w) -> in_handler_or_handled st.
+Proof. intros w st H1 H2. rewrite H1 in H2. destruct H2 as [H|[H|[H|H]]]; discriminate. Qed.
+
+(* what a client sends changes neither identities nor statuses *)
+Ltac client_event HI :=
+  eapply Inv_same_shape; [exact HI | try reflexivity ..]; simpl; try reflexivity;
+  try (apply bids_upd_b; apply keeps_bid_set_bcl); try (apply lis_upd_b; apply keeps_bid_set_bcl);
+  try (intro; apply has_queued_upd_b; apply keeps_bid_set_bcl);
+  try (apply ids_upd_w; apply keeps_id_set_wcl); try apply map_st_upd_wcl.
 
 (* ------------------------------------------------------------------------------------------------ *)
 Theorem Inv_step : forall s e s' o, Inv s -> step cfg s e = Some (s', o) -> Inv s'.
@@ -373,35 +384,36 @@ Proof.
     destruct (is_pdone (pc s)) eqn:Epd; [discriminate|].
     destruct ((l <? n_listen cfg)%N) eqn:El; [|discriminate]. inversion Hs; subst; clear Hs.
     apply Inv_connect; auto. apply N.ltb_lt. exact El.
+  - (* EPartial *)
+    destruct (find_b c (backlog s)) as [b|] eqn:Eb.
+    + destruct (b_cl b); try discriminate. inversion Hs; subst; clear Hs. client_event HI.
+    + destruct (find_w c (workers s)) as [w|] eqn:Ew; [|discriminate].
+      destruct (w_cl w); try discriminate; destruct (w_st w); try discriminate; inversion Hs; subst; clear Hs;
+        client_event HI.
   - (* ESend *)
     destruct (find_b c (backlog s)) as [b|] eqn:Eb.
-    + destruct (b_cl b); try discriminate. inversion Hs; subst; clear Hs.
-      eapply Inv_same_shape; eauto; simpl; try reflexivity.
-      * apply bids_upd_b. apply keeps_bid_set_bcl.
-      * apply lis_upd_b. apply keeps_bid_set_bcl.
-      * intro l. apply has_queued_upd_b. apply keeps_bid_set_bcl.
+    + destruct (head_open (b_cl b)); try discriminate. inversion Hs; subst; clear Hs. client_event HI.
     + destruct (find_w c (workers s)) as [w|] eqn:Ew; [|discriminate].
-      destruct (w_cl w); try discriminate. destruct (w_st w); try discriminate. inversion Hs; subst; clear Hs.
-      eapply Inv_same_shape; eauto; simpl; try reflexivity.
-      * apply ids_upd_w. apply keeps_id_set_wcl.
-      * apply map_st_upd_wcl.
+      destruct (head_open (w_cl w)); try discriminate; destruct (w_st w); try discriminate; inversion Hs; subst; clear Hs;
+        client_event HI.
+  - (* EBody *)
+    destruct (find_b c (backlog s)) as [b|] eqn:Eb.
+    + destruct (b_cl b) as [| |m [|]|]; try discriminate. inversion Hs; subst; clear Hs. client_event HI.
+    + destruct (find_w c (workers s)) as [w|] eqn:Ew; [|discriminate].
+      destruct (w_cl w) as [| |m [|]|]; try discriminate; destruct (w_st w); try discriminate; inversion Hs; subst; clear Hs;
+        client_event HI.
   - (* EClose *)
     destruct (find_b c (backlog s)) as [b|] eqn:Eb.
-    + destruct (b_cl b); try discriminate. inversion Hs; subst; clear Hs.
-      eapply Inv_same_shape; eauto; simpl; try reflexivity.
-      * apply bids_upd_b. apply keeps_bid_set_bcl.
-      * apply lis_upd_b. apply keeps_bid_set_bcl.
-      * intro l. apply has_queued_upd_b. apply keeps_bid_set_bcl.
+    + destruct (b_cl b); try discriminate. inversion Hs; subst; clear Hs. client_event HI.
     + destruct (find_w c (workers s)) as [w|] eqn:Ew; [|discriminate].
-      destruct (w_cl w); try discriminate. destruct (w_st w); try discriminate. inversion Hs; subst; clear Hs.
-      eapply Inv_same_shape; eauto; simpl; try reflexivity.
-      * apply ids_upd_w. apply keeps_id_set_wcl.
-      * apply map_st_upd_wcl.
+      destruct (w_cl w); try discriminate; destruct (w_st w); try discriminate; inversion Hs; subst; clear Hs;
+        client_event HI.
   - (* ERelease *)
     destruct (find_w c (workers s)) as [w|] eqn:Ew; [|discriminate].
     destruct (w_st w) eqn:Est; try discriminate. inversion Hs; subst; clear Hs.
     eapply (Inv_upd_st s _ c w (WDone OHandled) []); eauto; simpl; try reflexivity.
     + apply not_done_handling; auto.
+    + intros _. right. right. left. reflexivity.
     + rewrite app_nil_r. reflexivity.
   - (* EStop *)
     destruct (stop s) eqn:Est; [discriminate|]. inversion Hs; subst; clear Hs.
@@ -410,35 +422,49 @@ Proof.
   - (* TRead *)
     destruct (find_w c (workers s)) as [w|] eqn:Ew; [|discriminate].
     destruct (w_st w) eqn:Est; try discriminate.
-    destruct (w_cl w) eqn:Ecl; try discriminate.
+    destruct (w_cl w) as [| |m full|] eqn:Ecl; try discriminate.
     + destruct m as [r|].
       * destruct (gate_status (gate (gc cfg) r)) as [st|] eqn:Eg; inversion Hs; subst; clear Hs.
         -- eapply (Inv_upd_st s _ c w (WDone (OResp st)) []); eauto; simpl; try reflexivity.
            ++ apply not_done_reading; auto.
-           ++ intro H; rewrite Est in H; discriminate.
+           ++ apply reading_not_in_handler; auto.
            ++ rewrite app_nil_r. reflexivity.
-        -- eapply (Inv_upd_st s _ c w WHandling [c]); eauto; simpl; try reflexivity.
+        -- eapply (Inv_upd_st s _ c w (if r_body r then WBody else WHandling) [c]); eauto; simpl; try reflexivity.
            ++ apply not_done_reading; auto.
-           ++ intro H; rewrite Est in H; discriminate.
+           ++ apply reading_not_in_handler; auto.
+           ++ right. split; [reflexivity|]. destruct (r_body r); [right; left|left]; reflexivity.
       * inversion Hs; subst; clear Hs.
         eapply (Inv_upd_st s _ c w (WDone (OResp 400%N)) []); eauto; simpl; try reflexivity.
         -- apply not_done_reading; auto.
-        -- intro H; rewrite Est in H; discriminate.
+        -- apply reading_not_in_handler; auto.
         -- rewrite app_nil_r. reflexivity.
     + inversion Hs; subst; clear Hs.
       eapply (Inv_upd_st s _ c w (WDone OEof) []); eauto; simpl; try reflexivity.
       * apply not_done_reading; auto.
-      * intro H; rewrite Est in H; discriminate.
+      * apply reading_not_in_handler; auto.
       * rewrite app_nil_r. reflexivity.
+  - (* TBody *)
+    destruct (find_w c (workers s)) as [w|] eqn:Ew; [|discriminate].
+    destruct (w_st w) eqn:Est; try discriminate.
+    destruct (body_full (w_cl w)); try discriminate. inversion Hs; subst; clear Hs.
+    eapply (Inv_upd_st s _ c w WHandling []); eauto; simpl; try reflexivity.
+    + apply not_done_body; auto.
+    + intros _. left. reflexivity.
+    + rewrite app_nil_r. reflexivity.
   - (* TTimeout *)
     destruct (timeout_on cfg); [|discriminate].
     destruct (find_w c (workers s)) as [w|] eqn:Ew; [|discriminate].
-    destruct (w_st w) eqn:Est; try discriminate. destruct (w_cl w) eqn:Ecl; try discriminate.
-    inversion Hs; subst; clear Hs.
-    eapply (Inv_upd_st s _ c w (WDone OTimeout) []); eauto; simpl; try reflexivity.
-    + apply not_done_reading; auto.
-    + intro H; rewrite Est in H; discriminate.
-    + rewrite app_nil_r. reflexivity.
+    destruct (w_st w) eqn:Est; try discriminate.
+    + destruct (head_open (w_cl w)); [|discriminate]. inversion Hs; subst; clear Hs.
+      eapply (Inv_upd_st s _ c w (WDone OTimeout) []); eauto; simpl; try reflexivity.
+      * apply not_done_reading; auto.
+      * apply reading_not_in_handler; auto.
+      * rewrite app_nil_r. reflexivity.
+    + destruct (body_full (w_cl w)); try discriminate. inversion Hs; subst; clear Hs.
+      eapply (Inv_upd_st s _ c w (WDone OAborted) []); eauto; simpl; try reflexivity.
+      * apply not_done_body; auto.
+      * intros _. right. right. right. reflexivity.
+      * rewrite app_nil_r. reflexivity.
   - (* LBuild *)
     destruct (pc s) eqn:Epc; try discriminate. inversion Hs; subst; clear Hs.
     apply Inv_pc_only; auto; try (rewrite Epc; discriminate); try discriminate.
